@@ -113,9 +113,9 @@ theorem C06_main (p : Params) (preC preN : Nat) (ths : List Thread) (evs : List 
 stored at that moment — present, not revoked, not used, period not over — whatever the store looks like. -/
 theorem C06_read_gate (p : Params) (st : Store) (i : Nat) (t : Thread)
     (hk : t.kind = .activate) (hpc : t.pc = .claimed)
-    (h : (tstep .repaired p st i t).2.pc = .checked) :
+    (h : (tstepMain .repaired p st i t).2.pc = .checked) :
     st.present = true ∧ st.code.IsRevoked = false ∧ st.code.IsActivated = false ∧ ¬ (st.code.ActivationExpiresAt < st.now) := by
-  simp only [tstep, hk, hpc, getStepA] at h
+  simp only [tstepMain, hk, hpc, getStepA] at h
   split at h
   · simp [fin] at h
   · split at h
@@ -133,14 +133,16 @@ used and not expired: the claim guarantees that nobody has written the record si
 theorem C06_decision_instant (p : Params) (preC preN : Nat) (ths : List Thread) (evs : List Ev)
     (hf : freshThreads ths = true) (i : Nat) (t : Thread)
     (hi : (run .repaired p (init preC preN ths) evs).ths[i]? = some t) (hpc : t.pc = .checked)
+    (hs : t.spell = 0)
     (h : (tstep .repaired p (run .repaired p (init preC preN ths) evs).st i t).2.pc = .decided) :
     let st := (run .repaired p (init preC preN ths) evs).st
     st.code.IsRevoked = false ∧ st.code.IsActivated = false ∧ ¬ (st.code.ActivationExpiresAt < st.now) := by
   have hinv := inv_run (p := p) evs (inv_init preC preN ths hf)
-  have hl := (hinv.t i t hi).locEq hpc
+  have hl := (hinv.t i t hi hs).locEq hpc
   intro st
+  simp only [tstep, hs, ↓reduceIte] at h
   have : TunnelConnectionCode.CanBeActivatedBy st.now t.loc t.listener = true := by
-    cases hk : t.kind <;> simp only [tstep, hk, hpc] at h <;>
+    cases hk : t.kind <;> simp only [tstepMain, hk, hpc] at h <;>
     · split at h
       · simp [fin] at h
       · split at h
@@ -153,15 +155,43 @@ theorem C06_decision_instant (p : Params) (preC preN : Nat) (ths : List Thread) 
 re-decision saw an expired, revoked or used record ends there (`C06_decision_instant` is the only way to
 `decided`) and never reaches the one step that adds a mapping. -/
 theorem C06_create_only_after_decision (p : Params) (st : Store) (i : Nat) (t : Thread)
-    (h : st.maps.length < (tstep .repaired p st i t).1.maps.length) : t.pc = .decided := by
+    (h : st.maps.length < (tstep .repaired p st i t).1.maps.length) : t.spell = 0 ∧ t.pc = .decided := by
+  have hs : t.spell = 0 := by
+    apply Classical.byContradiction
+    intro hs
+    simp only [tstep, hs, ↓reduceIte] at h
+    unfold tstepO at h
+    (repeat' split at h) <;> simp_all
+  refine ⟨hs, ?_⟩
+  simp only [tstep, hs, ↓reduceIte] at h
   have hf := updateRec_fields st t
   cases hpc : t.pc <;> try rfl
   all_goals
     exfalso
-    cases hk : t.kind <;> simp only [tstep, hk, hpc] at h <;>
+    cases hk : t.kind <;> simp only [tstepMain, hk, hpc] at h <;>
       (try unfold claimStep at h) <;> (try unfold getStepA at h) <;> (try unfold getStepR at h) <;>
       (repeat' split at h) <;> simp_all <;>
       exact absurd h (Nat.not_lt.mpr (List.length_filter_le _ _))
+
+/-- **Requests that spell the code differently** (`Thread.spell ≠ 0`: upper case, surrounding blanks, any other
+string) are inside the quantifier of `C06_main`/`C06_core` — `ths` ranges over all spellings, overlapping in any
+way with correctly spelled requests.  The claim key and the record key are the same raw string
+(`skel_keys`: none of TryClaim / ReleaseClaim / GetByCode / Update / the service functions transforms the
+string), so such a request claims ANOTHER key and finds NO record: in every reachable configuration it has
+neither obtained a mapping nor revoked anything.  (A change that makes the look-up accept other spellings while
+the claim stays keyed by the raw string lets such a request into the read-check-write section under a
+different claim: the implementation then reports `ok` where this theorem says it cannot.) -/
+theorem C06_other_spelling (p : Params) (preC preN : Nat) (ths : List Thread) (evs : List Ev)
+    (hf : freshThreads ths = true) (i : Nat) (t : Thread)
+    (hi : (run .repaired p (init preC preN ths) evs).ths[i]? = some t) (hs : t.spell ≠ 0) :
+    (∀ m, t.res ≠ some (.ok m)) ∧ t.res ≠ some .rok := by
+  have h := (inv_run (p := p) evs (inv_init preC preN ths hf)).o i t hi hs
+  exact ⟨h.noOk, h.noRok⟩
+
+/-- Key discipline (T2): neither the claim nor the look-up nor the write-back canonicalises the code string
+(the extractor lists ToLower/ToUpper/TrimSpace/Trim/Fields/normalizeCode among the calls it reports; none occurs). -/
+theorem skel_keys : Skel.TryClaim = ["casStore.SetNX"] ∧ Skel.ReleaseClaim = ["storage.Delete"] ∧
+    Skel.GetByCode = ["storage.Get"] ∧ Skel.claimCode = ["connCodeRepo.TryClaim", "connCodeRepo.ReleaseClaim"] := by decide
 
 /-- `GenerateUnique` never returns a code that already exists, whatever candidates the random source proposes. -/
 theorem C06_generateUnique (ex : Nat → Bool) (fuel : Nat) (cands : List Nat) (c : Nat)
@@ -206,6 +236,15 @@ example : holdsValid [.create, .th 0, .th 0, .expire, .th 0, .th 0, .th 0, .th 0
 /-- the model in that schedule: the re-decision refuses, nothing is created -/
 example : (obs (run .repaired pW (init 0 0 [{ kind := .activate, listener := 101, laddr := 1 }])
     [.create, .th 0, .th 0, .expire, .th 0, .th 0, .th 0, .th 0])).results = [.err "internal"] := by decide
+/-- two overlapping activations, the second writes the code in upper case: it claims its own key, finds nothing -/
+example : (obs (run .repaired pW (init 0 0 [{ kind := .activate, listener := 101, laddr := 1 },
+      { kind := .activate, listener := 102, laddr := 2, spell := 1 }]) ([.create, .th 0, .th 1, .th 0, .th 1] ++ drain 2))) =
+    { results := [.ok (101, 1, 500, 1) true, .err "notfound"], maps := [(101, 1, 500, 1)],
+      orec := some ⟨true, false, some 101, some (some (101, 1, 500, 1))⟩ } := by decide
+/-- two requests with the same other spelling exclude each other on THEIR claim key -/
+example : (obs (run .repaired pW (init 0 0 [{ kind := .activate, listener := 101, laddr := 1, spell := 1 },
+      { kind := .activate, listener := 102, laddr := 2, spell := 1 }]) ([.create, .th 0, .th 1] ++ drain 2))).results =
+    [.err "notfound", .err "conflict"] := by decide
 /-- as found, histories in which the calls do not overlap are safe (two examples; the general statement
 `C06_seq_partial` is not mechanised, see the note at the end) -/
 example : holdsCore pW (thsW.map callOf) (obs (run .asFound pW (init 0 0 thsW) (.create :: drain 2))) = true := by decide
@@ -224,7 +263,7 @@ example : (obs (run .repaired pW (init 0 0 [{ kind := .revoke, listener := 0, la
 Not mechanised: `C06_seq_partial` (as found, schedules in which calls do not overlap satisfy `holdsCore`).  The
 invariant of `C06_core` rests on the claim (`TInv.claim`: whoever is between read and write-back holds it);
 without the claim, mutual exclusion would have to come from the shape of the schedule, which needs a second set
-of step lemmas for `tstep .asFound` (no claim/release phases, calls end in `done`).  The as-found code no longer
+of step lemmas for `tstepMain .asFound` (no claim/release phases, calls end in `done`).  The as-found code no longer
 exists in the tree; its failure is `C06_witness`, its sequential safety is shown on the examples above.
 -/
 
